@@ -131,3 +131,45 @@ def fn_step(fn, lean_name, members, cfg_type, cfg_term, doc):
         raise Untranslatable(f"{lean_name}: arguments")
     lines = _Emit(members, cfg_term).block(fn.body, 2)
     return (f"/-- {doc} -/\ndef {lean_name} (cfg : {cfg_type}) (s : PopSt) : Except Err (Pos × PopSt) := do\n" + "\n".join(lines))
+
+
+# ----------------------------------------------------------------------------- evaluate
+
+SPIRAL_CENTER = ("if self.search_state == 'iter':\n    if self.pop_sorted[0].score_current > self.center_score:\n"
+                 "        self.center_pos = self.pop_sorted[0].pos_current\n        self.center_score = self.pop_sorted[0].score_current")
+
+
+def fn_evaluate(fn, lean_name, cfg_type, member_cfg, member_has_own_evaluate, doc):
+    """`evaluate(self, score_new)` below `track_new_score` (`self.score_new = score` before, `self.nth_trial += 1` after):
+        notZero = self.n_iter_swap != 0 ; modZero = self.nth_trial % self.n_iter_swap == 0 ; if notZero and modZero: self._swap_pos()
+                                     ->  ZeroDivisionError for n_iter_swap = 0 (the modulo is computed first), else the swap's draws when due
+        the centre update of Spiral  ->  float side of the next spiral vector (oracle): no model state
+        self.p_current.evaluate(score_new)   ->  the member's complete `localEvaluate` on the shared tape (`ptEvalMember`), or - when the
+                                                 member class has its own `evaluate` (Spiral) - the tracker method generated by gen_tracker"""
+    if _decs(fn) != ["track_new_score"] or [a.arg for a in fn.args.args] != ["self", "score_new"]:
+        raise Untranslatable(f"{lean_name}: decorators {_decs(fn)} / arguments")
+    u = [U(x) for x in fn.body]
+    swap = False
+    if u[:3] == ["notZero = self.n_iter_swap != 0", "modZero = self.nth_trial % self.n_iter_swap == 0",
+                 "if notZero and modZero:\n    self._swap_pos()"]:
+        swap = True
+        u = u[3:]
+    if u[:1] == [SPIRAL_CENTER]:
+        u = u[1:]
+    if u != ["self.p_current.evaluate(score_new)"]:
+        raise Untranslatable(f"{lean_name}: body {u}")
+    head = f"/-- {doc} -/\ndef {lean_name} (cfg : {cfg_type}) (s : PopSt) (score_new : F) : Except Err PopSt :=\n"
+    if member_has_own_evaluate:
+        if swap:
+            raise Untranslatable(f"{lean_name}: swap with a member-defined evaluate")
+        return (head + "  match s.members[s.cur]? with\n  | none => .error (.other \"AttributeError\")\n  | some m =>\n"
+                "    let t1 := s.tr.setScoreNew score_new\n"
+                "    .ok { s with members := s.members.set s.cur { m with tr := Tracker.spiralEvaluate m.tr score_new }\n"
+                "                 tr := { t1 with nthTrial := t1.nthTrial + 1 } }")
+    if swap:
+        return (head + "  let t1 := s.tr.setScoreNew score_new\n"
+                "  if cfg.nIterSwap = 0 then .error .zeroDivision\n  else\n"
+                "    match (if t1.nthTrial % cfg.nIterSwap = 0 then swapDraws s.members.length s.tape else .ok s.tape) with\n"
+                "    | .error e => .error e\n"
+                f"    | .ok tape1 => ptEvalMember {member_cfg} s t1 tape1 score_new")
+    return head + f"  ptEvalMember {member_cfg} s (s.tr.setScoreNew score_new) s.tape score_new"
